@@ -122,6 +122,109 @@ static bool cpMidCase(const vh::Args &a, long k, int argc, char **argv) {
     return true;
 }
 
+// Third family ("endseg-tie" / control "endseg-off"): one obstacle; connector A leaves its source
+// (a free point with a direction, or the pin of a small shape) exactly along the line
+// obstacle edge + shapeBufferDistance, so its FIRST segment - which nudging may not move - lies on the
+// line along which 1..2 other connectors (no common end point) wrap around the obstacle as c-bends.
+// The side away from the obstacle is free for >= (m+1)*d + 20, so the channel is wide enough and the
+// c-bends have to be moved out. Control: A's source is off that line by 3 + d. All eight
+// mirror / transpose images are generated.
+static bool endSegTieCase(const vh::Args &a, long k, int argc, char **argv) {
+    vh::Rng r = vh::caseRng(a.seed, k, 2);
+    static const double ds[] = {1, 4, 10};
+    double d = ds[r.range(0, 2)];
+    int nb = (int) r.range(1, 2), m = nb + 1;
+    bool tie = r.coin(3, 4);
+    bool pins = r.coin();
+    unsigned opts = r.coin() ? (4u | 8u) : (unsigned) (2 * r.range(0, 15));   // defaults, or any combination with final-nudge off
+    double buf = r.coin() ? 10.0 : 4.0;
+    double seg = r.coin() ? 50.0 : 10.0;
+    double sx = r.coin() ? 1.0 : -1.0, sy = r.coin() ? 1.0 : -1.0;
+    bool transpose = r.coin();
+    double w = 2.0 * r.range(30, 70), h = 2.0 * r.range(20, 40), cx = 200, cy = 100;
+    double left = cx - w / 2, right = cx + w / 2, ye = cy + h / 2 + buf;      // buffered lower edge
+    double room = (m + 1) * d + 20;
+    double ya = tie ? ye : ye + 3 + d;
+    double xa = left - buf - (double) r.range(50, 110), xt = right + buf + (double) r.range(50, 110);
+    double yt = ye + room + (double) r.range(20, 60);
+    auto P = [&](double x, double y) { double X = sx * x, Y = sy * y; return transpose ? Point(Y, X) : Point(X, Y); };
+    auto D = [&](double dx, double dy) -> ConnDirFlags {          // image of a direction
+        double X = sx * dx, Y = sy * dy; if (transpose) std::swap(X, Y);
+        return X > 0 ? ConnDirRight : X < 0 ? ConnDirLeft : Y > 0 ? ConnDirDown : ConnDirUp;
+    };
+    auto mkRect = [&](double x0, double y0, double x1, double y1) {
+        Point p = P(x0, y0), q = P(x1, y1);
+        return Rectangle(Point(std::min(p.x, q.x), std::min(p.y, q.y)), Point(std::max(p.x, q.x), std::max(p.y, q.y)));
+    };
+    vh::beginCase(k, tie ? "endseg-tie" : "endseg-off");
+    printf("cfg %s %s %d %d %s %u %s %d endseg %d %d\n", hx(d).c_str(), hx(room).c_str(), m, 1, hx(buf).c_str(), opts, hx(0.0).c_str(), (int) transpose, (int) tie, (int) pins);
+    Router *router = nullptr;
+    try {
+        router = new Router(OrthogonalRouting);
+        router->setTransactionUse(true);
+        router->setRoutingParameter(segmentPenalty, seg);
+        router->setRoutingParameter(idealNudgingDistance, d);
+        router->setRoutingParameter(shapeBufferDistance, buf);
+        router->setRoutingOption(nudgeOrthogonalSegmentsConnectedToShapes, false);
+        router->setRoutingOption(nudgeOrthogonalTouchingColinearSegments, (opts & 2) != 0);
+        router->setRoutingOption(performUnifyingNudgingPreprocessingStep, (opts & 4) != 0);
+        router->setRoutingOption(nudgeSharedPathsWithCommonEndPoint, (opts & 8) != 0);
+        router->setRoutingOption(penaliseOrthogonalSharedPathsAtConnEnds, (opts & 16) != 0);
+        Rectangle ob = mkRect(left, cy - h / 2, right, cy + h / 2);
+        printf("obstacle %s %s %s %s\n", hx(ob.ps[3].x).c_str(), hx(ob.ps[3].y).c_str(), hx(ob.ps[1].x).c_str(), hx(ob.ps[1].y).c_str());
+        new ShapeRef(router, ob, 1);
+        {   // sentinels beyond all four extremes: libavoid widens the directions of connection points on
+            // the first / last sweep position of the scene (see harness/c11.cpp)
+            Rectangle s1(Point(-800, -800), Point(-790, -790)), s2(Point(790, 790), Point(800, 800));
+            new ShapeRef(router, s1, 8); new ShapeRef(router, s2, 9);
+        }
+        std::vector<ConnRef *> conns;
+        // connector A
+        Point as = P(xa, ya), at = P(xt, yt);
+        printf("conn 0 %s %s %s %s\n", hx(as.x).c_str(), hx(as.y).c_str(), hx(at.x).c_str(), hx(at.y).c_str());
+        ConnRef *A;
+        if (pins) {
+            // source: pin in the middle of the side of a 40x40 shape that faces the obstacle; target: pin in
+            // the middle of the side of a 40x40 shape that faces the line
+            Rectangle rs = mkRect(xa - 40, ya - 20, xa, ya + 20), rt = mkRect(xt - 20, yt, xt + 20, yt + 40);
+            ShapeRef *s = new ShapeRef(router, rs, 2), *t = new ShapeRef(router, rt, 3);
+            Box bs = rs.offsetBoundingBox(0), bt = rt.offsetBoundingBox(0);
+            new ShapeConnectionPin(s, 1, (as.x - bs.min.x) / bs.width(), (as.y - bs.min.y) / bs.height(), true, 0.0, D(1, 0));
+            new ShapeConnectionPin(t, 1, (at.x - bt.min.x) / bt.width(), (at.y - bt.min.y) / bt.height(), true, 0.0, D(0, -1));
+            A = new ConnRef(router, ConnEnd(s, 1), ConnEnd(t, 1), 100);
+        } else {
+            A = new ConnRef(router, ConnEnd(as, D(1, 0)), ConnEnd(at, D(0, -1)), 100);
+        }
+        A->setRoutingType(ConnType_Orthogonal);
+        conns.push_back(A);
+        // connectors B_i: both ends level with the lower half of the obstacle, left and right of it
+        for (int i = 0; i < nb; ++i) {
+            double yb = cy + 2 + (double) r.range(0, (long) (h / 2) - 4) - 0.5 * i;
+            double xb = left - buf - 10 - 12.0 * i - (double) r.range(0, 8), xb2 = right + buf + 10 + 12.0 * i + (double) r.range(0, 8);
+            Point bs = P(xb, yb), bt = P(xb2, yb);
+            printf("conn %d %s %s %s %s\n", i + 1, hx(bs.x).c_str(), hx(bs.y).c_str(), hx(bt.x).c_str(), hx(bt.y).c_str());
+            ConnRef *c = new ConnRef(router, ConnEnd(bs), ConnEnd(bt), (unsigned) (101 + i));
+            c->setRoutingType(ConnType_Orthogonal);
+            conns.push_back(c);
+        }
+        fflush(stdout);
+        router->processTransaction();
+        for (int i = 0; i < m; ++i) {
+            pts("route", i, conns[i]->route(), transpose);
+            pts("disp", i, conns[i]->displayRoute(), transpose);
+        }
+        printf("overlap %d\n", (int) router->existsOrthogonalSegmentOverlap());
+        vh::endCase();
+        delete router;
+    } catch (vpsc::CriticalFailure &f) {
+        printf("assert %s\n", oneLine(f.what()).c_str());
+        vh::endCase();
+        if (a.only >= 0) _exit(0);
+        reexecFrom(k + 1, argc, argv);
+    }
+    return true;
+}
+
 int main(int argc, char **argv) {
     vh::Args a = vh::parseArgs(argc, argv);
     bool thorough = (a.tier == "thorough");
@@ -130,8 +233,13 @@ int main(int argc, char **argv) {
     long from = 0;
     for (int i = 1; i + 1 < argc; ++i) if (std::string(argv[i]) == "--from") from = atol(argv[i + 1]);
     long nmid = (thorough ? 8000 : 1500) * a.scale;        // second family, indices ncases .. ncases+nmid-1
-    for (long k = from; k < ncases + nmid; ++k) {
+    long ntie = (thorough ? 8000 : 1500) * a.scale;        // third family, after the second
+    for (long k = from; k < ncases + nmid + ntie; ++k) {
         if (!a.want(k)) continue;
+        if (k >= ncases + nmid) {
+            if (!endSegTieCase(a, k, argc, argv)) return 0;
+            continue;
+        }
         if (k >= ncases) {
             if (!cpMidCase(a, k, argc, argv)) return 0;
             continue;
